@@ -164,6 +164,9 @@ def check_deletions(ctx, rule: str) -> None:
             scenarios.append(("double_gene_deletion", "gene", method, objects, [None, None]))
             scenarios.append(("double_gene_deletion", "gene", method, objects, [["gA", "gB"], ["gB", "gD", "gA"]]))
     # an explicitly empty list requests nothing (it is not the same as an omitted one)
+    # the same ids in both lists, in a different order: every unordered pair and every single is requested
+    scenarios.append(("double_reaction_deletion", "reaction", "fba", False, [["R1", "R2", "R4"], ["R4", "R1", "R2"]]))
+    scenarios.append(("double_gene_deletion", "gene", "fba", False, [["gA", "gB", "gD"], ["gD", "gA", "gB"]]))
     scenarios.append(("single_reaction_deletion", "reaction", "fba", False, [[]]))
     scenarios.append(("single_gene_deletion", "gene", "fba", False, [[]]))
     scenarios.append(("double_reaction_deletion", "reaction", "fba", False, [["R1", "R2"], []]))
@@ -230,7 +233,7 @@ def check_deletions(ctx, rule: str) -> None:
                 problems.setdefault("solved", f"{what}: a problem without the MOMA set-up is solved")
         if method != "fba":
             for ko, k, f in oracle.log:
-                if k == "moma" and any(b is not None and abs(abs(b) - DECOY) < 1e-12 for c_ in f.constraints for b in (c_.lb, c_.ub)):
+                if k == "moma" and any(isinstance(b, (int, float)) and abs(abs(b) - DECOY) < 1e-12 for c_ in f.constraints for b in (c_.lb, c_.ub)):
                     problems.setdefault("solved", f"{what}: the minimal-adjustment problem is built around a reference the function computed itself (pFBA of the model), not around the solution it was given: the reported growth values are adjustments to the wrong flux distribution")
                     break
         solved = [ko for ko, k, f in oracle.log]
